@@ -359,16 +359,30 @@ Theorem gmfx_posterior_mean_is_estep : forall m0 v0 xi si, gm_mi m0 v0 xi si == 
 Proof. exact gm_mi_is_e_mean. Qed.
 Print Assumptions gmfx_posterior_mean_is_estep.
 
-(* FINDING: student_mfx is documented as the likelihood ratio of H0: mean = base, but the
-   constrained fit of _fff_onesample_gmfx_EM pins the mean at 0 for every base *)
-Theorem student_mfx_null_mean_is_always_zero : forall n x var, student_mfx_null_mean n x var = 0.
-Proof. exact gmfx_constrained_mean_zero. Qed.
-Print Assumptions student_mfx_null_mean_is_always_zero.
+(* student_mfx is the likelihood ratio of H0: mean = base: the constrained fit keeps the
+   mean at the baseline handed over by _fff_onesample_LR_gmfx (repaired by 4a6ea55) ... *)
+Theorem student_mfx_null_mean_is_base : forall n base x var, student_mfx_null_mean n base x var = base.
+Proof. exact gmfx_constrained_mean_is_input. Qed.
+Print Assumptions student_mfx_null_mean_is_base.
 
-Theorem student_mfx_null_mean_is_base_refuted :
-  exists n x var base, ~ student_mfx_null_mean n x var == base.
-Proof. exists 1%nat, [1; 2], [1; 1], 1. unfold student_mfx_null_mean. rewrite gmfx_constrained_mean_zero. discriminate. Qed.
-Print Assumptions student_mfx_null_mean_is_base_refuted.
+(* ... and the variance under H0 depends on the data only through x - base: a common shift of
+   data and baseline leaves its initial value and every EM update unchanged *)
+Theorem student_mfx_null_variance_init_shift_invariant : forall x m c, x <> [] ->
+  snd (gmfx_init true (m + c) (map (fun a => a + c) x)) == snd (gmfx_init true m x).
+Proof. exact gmfx_constrained_init_shift. Qed.
+Print Assumptions student_mfx_null_variance_init_shift_invariant.
+
+Theorem student_mfx_null_variance_step_shift_invariant : forall m0 v0 c x var,
+  Forall (fun s => ~ s + v0 == 0) var ->
+  snd (gmfx_step true (map (fun a => a + c) x) var (m0 + c, v0)) == snd (gmfx_step true x var (m0, v0)).
+Proof. exact gmfx_constrained_step_shift. Qed.
+Print Assumptions student_mfx_null_variance_step_shift_invariant.
+
+(* the initial constrained variance is the mean squared deviation from the baseline *)
+Theorem student_mfx_null_variance_init_def : forall x m, x <> [] ->
+  ssd_fixed x m == qsum (map (fun v => (v - m) * (v - m)) x).
+Proof. exact ssd_fixed_is_sqdev. Qed.
+Print Assumptions student_mfx_null_variance_init_def.
 
 (* ================================================================ p-values *)
 Theorem calibrated_p_in_closed_unit_interval : forall draws t, draws <> [] ->
